@@ -8,7 +8,11 @@ PROP = {
                  "timeout": {"thorough": 6000}}],
     "assumptions": [
         "C12_no_panic_run: at most 16384 masters per cluster along the history (PlanBound on every prefix)",
-        "non-ordered mode only (enable_ordered_proxy = true is not modelled)",
+        "both modes of MetaStore are modelled (enable_ordered_proxy = false / true; a history of an ordered-mode broker starts with the pseudo-operation Op.setOrdered, see notes/ordered.md); about a quarter of the generated cases run MetaStore::new(true). The two-hosts clause is a property of the host-based allocator: C12_two_hosts_* carry the "
+        "hypothesis s.ordered = false, the ordered-mode counterparts are C12_ordered_addCluster / _addNodes (chunks are "
+        "filled with free healthy proxies in index order), C12_ordered_one_cluster, C12_ordered_failover / "
+        "_no_replacement (a failed proxy is never replaced); the harness does not apply the two-hosts and "
+        "replacement-host oracles to ordered-mode cases",
         "HashMap-order dependent picks (which free proxies form a chunk, which free proxy replaces a failed one) are "
         "arguments of the model validated against the set of picks the code can make; theorems hold for every "
         "choice; the correspondence feeds the implementation's actual pick (a rejected pick is a disagreement)",
@@ -71,7 +75,7 @@ CHECK = {
             "every operation and evaluates the accounting, two-host, refusal, no-panic (catch_unwind) and "
             "replacement-host oracles on the implementation's state.",
     "note": "Trusted: Lean kernel; hand-written broker model (validated differentially each run); allocation choices "
-            "taken from the implementation and checked against the model's allowed set; ordered-proxy mode unmodelled. "
+            "taken from the implementation and checked against the model's allowed set; both proxy-allocation modes modelled. "
             "F1 (replacement on the partner host although a third host was free) was repaired in /repo 8b46892; the "
             "model is of the repaired code.",
 }
